@@ -3,3 +3,5 @@ pub mod c09;
 pub mod c04;
 pub mod c06;
 pub mod c11;
+pub mod c01;
+pub mod c07;
